@@ -139,6 +139,10 @@ class FuseSuccessiveClip(_FuseReluClipBase):
             return None
 
         min_clip = combine(min_clip1, min_clip2, np.maximum)
+        # The second Clip raises values below its min: when max1 < min2 the result is min(min2, max2),
+        # so the fused upper bound is min(max(max1, min2), max2), not min(max1, max2).
+        if max_clip1 is not None and min_clip2 is not None:
+            max_clip1 = np.maximum(max_clip1, min_clip2)
         max_clip = combine(max_clip1, max_clip2, np.minimum)
 
         return min_clip, max_clip
